@@ -134,6 +134,7 @@ class Env(Engine):
         "C12": ["ERR", "RAN", "CACHE", "AFTER"],
         "C13": ["LOAD", "VARS", "RUN", "CMDS"],
         "C05": ["ERR", "RAN", "CACHE", "AFTER"],
+        "C20": ["LOAD", "VARS"],
         "C19": ["ERR", "RAN", "CACHE", "AFTER"],
     }
 
@@ -275,6 +276,9 @@ class Env(Engine):
             return ("env engine as extra engine of C05: `spok --clean` of the real binary on generated projects with OUTPUT globs (the C12 cases that have one, "
                     "incl. hidden entries, meta-characters in the sandbox path and in file names, a spokfile that is a symbolic link into another directory): "
                     "the tree afterwards is the tree before minus exactly the matching non-hidden entries (and the other designated outputs)")
+        if prop == "C20":
+            return ("env engine as extra engine of C20: `--vars` of the real binary on generated spokfiles with string, join(…) and exec(…) variables "
+                    "(incl. the same exec text twice, 70 kB outputs, pipelines): the listing shows every variable with the model's evaluated value")
         if prop == "C19":
             return ("env engine as extra engine of C19: `spok --clean` of the real binary on the C12 cases (literal, named and glob outputs, outputs that are "
                     "symbolic links, protected targets, a user-defined clean task): the snapshot diff is exactly what the action allows")
